@@ -54,6 +54,8 @@ if __name__ == "__main__":
         if c.inline or c.trusted:
             continue
         for b in c.behaviours:
+            if c.behaviours[b].trusted:
+                continue
             try:
                 n = ex.verify(c, b)
                 print("%-40s %-10s paths=%d" % (c.qualname, b, n))
